@@ -10,7 +10,7 @@ class C14(SCheck):
     default_seed = 14014
     N = {"quick": 250, "thorough": 8000}
     K = {"quick": 3, "thorough": 4}
-    technique = "deterministic simulation: seeded schedules, snapshot oracle (node type, rdev, mode) + supervisor trace (no open/read of a special source)"
+    technique = "deterministic simulation: seeded schedules (umask, mknod, mkdir of different threads interleaved), one injected errno at mknod/unlink calls, snapshot oracle (node type, rdev, mode) + supervisor trace (no open/read of a special source)"
     rule = ("case = FIFOs / sockets / character devices with random (major, minor) and modes, as sole source or inside a tree, umask in {0,022}, "
             "fresh or existing destination entry, optionally --no-clobber, block devices (must fail); x driver x schedules; non-trivial = at "
             "least one special node was selected; distinct by signature")
